@@ -466,6 +466,11 @@ class StmtMixin:
       return self.for_range(node, env, VRange(z3.IntVal(0), s.n), spec, ordinal, seq=s)
     if isinstance(it, VZip):
       return self.for_zip(node, env, it, spec, ordinal)
+    if isinstance(it, VIter) and it.fails is None and it.wrap_fn is None:
+      # the rest of a fault-free iterator: its elements from the current position on; it is exhausted afterwards
+      lo, n = it.pos, it.src.n
+      it.pos = n
+      return self.for_range(node, env, VRange(lo, n), spec, ordinal, seq=it.src)
     raise Unsupported(f'for over {type(it).__name__}')
 
   def for_zip(self, node, env, zp, spec, ordinal):
